@@ -218,11 +218,14 @@ Lemma session_eta s :
   {| s_id := s_id s; s_pending := s_pending s; s_regions := s_regions s; s_main := s_main s |} = s.
 Proof. now destruct s. Qed.
 
-(* the outcomes the property statement calls "discarded": bad framing, unknown host, pre-session,
+Lemma guard_off S src : S <> src -> addr_eqb (ip_addr S) (ip_addr src) = false.
+Proof. intros H. apply addr_eqb_neq. intros E. apply ip_addr_inj in E. contradiction. Qed.
+
+(* the outcomes the property statement calls "discarded": bad framing, self-addressed, unknown host, pre-session,
    unknown circuit, banned, undecodable *)
 Definition is_discard (o : outcome) : bool :=
   match o with
-  | ONonSocks | OUnknownHost | OPreSession | OUnclaimed | ONoCircuit
+  | ONonSocks | OSelfAddressed | OUnknownHost | OPreSession | OUnclaimed | ONoCircuit
   | OExcSocks | OExcDecode | OExcBanned | OExcFlavor | OExcBody => true
   | _ => false
   end.
@@ -272,7 +275,7 @@ Section Routing.
   (* viewer -> simulator: a SOCKS datagram from the client for a simulator with which the claimed
      session has a circuit goes to exactly that simulator, exactly once, as the circuit emits it *)
   Theorem viewer_to_sim : forall ss p data src S payload m i s k r c,
-    f2n_get (p_f2n p) (ip_addr src) = None -> fst src = p_client p ->
+    f2n_get (p_f2n p) (ip_addr src) = None -> fst src = p_client p -> S <> src ->
     parse_socks data = POk (ip_addr S) payload ->
     decode payload = Some m -> p_sess p = Some i -> nth_error ss i = Some s ->
     name_eqb (mi_name m) n_UseCircuitCode = false ->
@@ -284,8 +287,8 @@ Section Routing.
     rs_sessions res = upd_nth i (after_forward s m k r) ss /\
     rs_proto res = set_f2n p (f2n_set (p_f2n p) (ip_addr S) src).
   Proof.
-    intros ss p data src S payload m i s k r c Hf Hc Hp Hd Hs Hn Hu Hfind Hb Hcons res. subst res.
-    unfold recv. rewrite Hf, Hc, N.eqb_refl, Hp.
+    intros ss p data src S payload m i s k r c Hf Hc Hne Hp Hd Hs Hn Hu Hfind Hb Hcons res. subst res.
+    unfold recv. rewrite Hf, Hc, N.eqb_refl, Hp, (guard_off _ _ Hne).
     assert (Hu' : true && name_eqb (mi_name m) n_UseCircuitCode = false) by (cbn; exact Hu).
     assert (Hv : true = false -> validate_udp_msg (mi_name m) = Some true) by discriminate.
     destruct (handle_forward ss (set_f2n p (f2n_set (p_f2n p) (ip_addr S) src)) true src (ip_addr S) payload
@@ -340,7 +343,7 @@ Section Routing.
     (p_sess p = None /\ mi_body_ok m = true /\ claim ss (mi_sid m) = Some (i, ss1)).
 
   Theorem circuit_handshake : forall ss p data src S payload m i ss1 s,
-    f2n_get (p_f2n p) (ip_addr src) = None -> fst src = p_client p ->
+    f2n_get (p_f2n p) (ip_addr src) = None -> fst src = p_client p -> S <> src ->
     parse_socks data = POk (ip_addr S) payload ->
     decode payload = Some m -> name_eqb (mi_name m) n_UseCircuitCode = true ->
     session_ready ss p m i ss1 -> nth_error ss1 i = Some s ->
@@ -355,8 +358,8 @@ Section Routing.
       find_region (s_regions s') (ip_addr S) = Some (k, r', c') /\
       (find_region (s_regions s) (ip_addr S) = None -> c' = {| c_near := src; c_alive := true |}).
   Proof.
-    intros ss p data src S payload m i ss1 s Hf Hc Hp Hd Hu Hready Hn [r0 [Hin Hr0]] Hcons res. subst res.
-    unfold recv. rewrite Hf, Hc, N.eqb_refl, Hp. unfold handle. rewrite Hd. cbn [andb].
+    intros ss p data src S payload m i ss1 s Hf Hc Hne Hp Hd Hu Hready Hn [r0 [Hin Hr0]] Hcons res. subst res.
+    unfold recv. rewrite Hf, Hc, N.eqb_refl, Hp, (guard_off _ _ Hne). unfold handle. rewrite Hd. cbn [andb].
     rewrite Hu. cbn [p_sess set_f2n].
     assert (Hpre : (match p_sess p with
                     | Some i0 => inl (i0, ss)
@@ -423,16 +426,18 @@ Section Routing.
     p_sess (rs_proto res) = p_sess p /\ p_client (rs_proto res) = p_client p /\
     (p_f2n (rs_proto res) = p_f2n p \/
      exists far d, parse_socks data = POk far d /\ f2n_get (p_f2n p) (ip_addr src) = None /\
+                   far <> ip_addr src /\ fst src = p_client p /\
                    p_f2n (rs_proto res) = f2n_set (p_f2n p) far src).
   Proof.
     intros ss p data src res. subst res. unfold recv.
     destruct (f2n_get (p_f2n p) (ip_addr src)) as [v|] eqn:Hf.
     - intros H. destruct (handle_discard _ _ _ _ _ _ H) as (H1 & H2 & H3). rewrite H1, H2, H3. auto 6.
-    - destruct (fst src =? p_client p); [|cbn; auto 6].
+    - destruct (fst src =? p_client p) eqn:Hcl; [|cbn; auto 6].
       destruct (parse_socks data) as [| |far d] eqn:Hp; [cbn; auto 6|cbn; auto 6|].
+      destruct (addr_eqb far (ip_addr src)) eqn:Hg; [cbn; auto 6|].
       intros H. destruct (handle_discard _ _ _ _ _ _ H) as (H1 & H2 & H3). rewrite H1, H2, H3.
       cbn [p_sess p_client p_f2n set_f2n]. repeat split; try reflexivity.
-      right. exists far, d. auto.
+      right. exists far, d. apply addr_eqb_neq in Hg. apply N.eqb_eq in Hcl. auto 6.
   Qed.
 
   (* ---------- handle looks at the association only through its session reference ---------- *)
@@ -571,6 +576,7 @@ Section Routing.
     - rewrite handle_proto. cbn. auto.
     - destruct (fst src =? p_client p); [|cbn; auto].
       destruct (parse_socks data) as [| |far d]; [cbn; auto|cbn; auto|].
+      destruct (addr_eqb far (ip_addr src)); [cbn; auto|].
       rewrite handle_proto. cbn. split; [reflexivity|]. intros a H. now apply truthy_set_mono.
   Qed.
 
@@ -593,6 +599,7 @@ Section Routing.
       destruct H2 as [H2|(H2 & _ & H2')]; [left; exact H2|right; auto].
     - destruct (fst src =? p_client p); [|left; cbn; auto].
       destruct (parse_socks data) as [| |far d]; [left; cbn; auto|left; cbn; auto|].
+      destruct (addr_eqb far (ip_addr src)); [left; cbn; auto|].
       destruct (handle_sessions ss (set_f2n p (f2n_set (p_f2n p) far src)) true src far d)
         as [H|(i & ss1 & s1 & s2 & H1 & H2 & H3 & H4 & H5 & H6 & H7)]; [left; exact H|right].
       exists i, ss1, s1, s2, (Some far). repeat split; try assumption.
@@ -704,6 +711,7 @@ Section Routing.
     { intros E E'. unfold recv. rewrite E, E', <- Hc.
       destruct (fst src =? p_client p); [|cbn; auto].
       destruct (parse_socks data) as [| |far d]; [cbn; auto|cbn; auto|].
+      destruct (addr_eqb far (ip_addr src)); [cbn; auto|].
       assert (HR2 : Rel X (set_f2n p (f2n_set (p_f2n p) far src)) (set_f2n p' (f2n_set (p_f2n p') far src))).
       { repeat split; cbn [p_client p_sess p_f2n set_f2n]; auto.
         - intros a Ha. destruct (addr_eqb far a) eqn:Efa.
@@ -778,17 +786,32 @@ Section Routing.
     destruct IH as (I1 & I2 & I3). rewrite A, I1. auto.
   Qed.
 
-  (* what "does not harm anything later" needs: the SOCKS destination of the discarded datagram is not
-     an address on the client's IP from which a later datagram arrives (finding #20 is exactly the
-     violation of this side condition: destination = the viewer's own address) *)
-  Definition dest_harmless (client : N) (data : list N) (h2 : list (list N * ipaddr)) : Prop :=
-    forall far d, parse_socks data = POk far d ->
+  (* Since /repo dc82116 a datagram addressed to its own sender leaves no trace at all.  What is left:
+     a discarded, well-framed client datagram whose destination is ANOTHER address on the client's IP
+     makes later datagrams from that other address count as inbound.  [dest_harmless] excludes exactly
+     that: it only speaks about a destination different from the sender, of a datagram sent from the
+     client's IP, and only about later datagrams arriving from that destination on the client's IP. *)
+  Definition dest_harmless (client : N) (data : list N) (src : ipaddr) (h2 : list (list N * ipaddr)) : Prop :=
+    forall far d, parse_socks data = POk far d -> far <> ip_addr src -> fst src = client ->
     forall e, In e h2 -> ip_addr (snd e) = far -> fst (snd e) <> client.
+
+  (* ... and it holds outright when the client uses a single UDP address *)
+  Definition one_viewer_address (client : N) (h : list (list N * ipaddr)) : Prop :=
+    exists V, forall e, In e h -> fst (snd e) = client -> snd e = V.
+
+  Lemma one_viewer_harmless client data src h2 :
+    one_viewer_address client ((data, src) :: h2) -> dest_harmless client data src h2.
+  Proof.
+    intros [V HV] far d _ Hne Hcl e He Ha Hce.
+    assert (E1 : src = V) by (apply (HV (data, src)); [now left|exact Hcl]).
+    assert (E2 : snd e = V) by (apply HV; [now right|exact Hce]).
+    apply Hne. rewrite <- Ha, E2, E1. reflexivity.
+  Qed.
 
   Theorem discard_isolated_from : forall ss p data src h2,
     Inv ss p ->
     is_discard (rs_outcome (recv decode ss p data src)) = true ->
-    dest_harmless (p_client p) data h2 ->
+    dest_harmless (p_client p) data src h2 ->
     rs_sends (recv decode ss p data src) = [] /\
     let '(ssA, pA, outA) := run decode (rs_sessions (recv decode ss p data src)) (rs_proto (recv decode ss p data src)) h2 in
     let '(ssB, pB, outB) := run decode ss p h2 in
@@ -799,7 +822,7 @@ Section Routing.
     split; [exact S1|]. rewrite S2.
     assert (exists X, Rel X p (rs_proto (recv decode ss p data src)) /\
                       forall e, In e h2 -> ip_addr (snd e) = X -> fst (snd e) <> p_client p) as (X & HR & HX).
-    { destruct S5 as [E|(far & d & Hp & _ & E)].
+    { destruct S5 as [E|(far & d & Hp & _ & Hne & Hcl & E)].
       - exists (HDom [], 0). split.
         + repeat split; auto; rewrite E; auto.
         + intros e _ He. destruct e as [? [? ?]]. discriminate.
@@ -832,7 +855,7 @@ Section Routing.
     Inv ss p ->
     let '(ss1, p1, out1) := run decode ss p h1 in
     is_discard (rs_outcome (recv decode ss1 p1 data src)) = true ->
-    dest_harmless (p_client p) data h2 ->
+    dest_harmless (p_client p) data src h2 ->
     let '(ssA, pA, outA) := run decode ss p (h1 ++ (data, src) :: h2) in
     let '(ssB, pB, outB) := run decode ss p (h1 ++ h2) in
     exists tail, outA = out1 ++ [] :: tail /\ outB = out1 ++ tail /\ ssA = ssB /\ p_sess pA = p_sess pB.
@@ -848,6 +871,21 @@ Section Routing.
     destruct R as (R1 & R2 & R3). exists outB. subst outA. auto.
   Qed.
 
+  (* no side condition at all when every datagram from the client's IP comes from one address *)
+  Theorem discard_isolated_one_viewer : forall ss p h1 data src h2,
+    Inv ss p ->
+    let '(ss1, p1, out1) := run decode ss p h1 in
+    is_discard (rs_outcome (recv decode ss1 p1 data src)) = true ->
+    one_viewer_address (p_client p) ((data, src) :: h2) ->
+    let '(ssA, pA, outA) := run decode ss p (h1 ++ (data, src) :: h2) in
+    let '(ssB, pB, outB) := run decode ss p (h1 ++ h2) in
+    exists tail, outA = out1 ++ [] :: tail /\ outB = out1 ++ tail /\ ssA = ssB /\ p_sess pA = p_sess pB.
+  Proof.
+    intros ss p h1 data src h2 HI. pose proof (discard_isolated ss p h1 data src h2 HI) as H.
+    destruct (run decode ss p h1) as [[ss1 p1] out1]. intros Hd Hone.
+    apply H; [exact Hd|]. now apply one_viewer_harmless.
+  Qed.
+
   (* ---------- never more than one send per datagram, whatever the datagram ---------- *)
 
   Theorem at_most_once : forall ss p data src, (length (rs_sends (recv decode ss p data src)) <= 1)%nat.
@@ -860,15 +898,15 @@ Section Routing.
   Theorem two_regions_out : forall ss p data src payload m i s k r c,
     NoDup (map r_addr (s_regions s)) ->
     nth_error (s_regions s) k = Some r -> r_circ r = Some c ->
-    f2n_get (p_f2n p) (ip_addr src) = None -> fst src = p_client p ->
+    f2n_get (p_f2n p) (ip_addr src) = None -> fst src = p_client p -> r_addr r <> src ->
     parse_socks data = POk (ip_addr (r_addr r)) payload ->
     decode payload = Some m -> p_sess p = Some i -> nth_error ss i = Some s ->
     name_eqb (mi_name m) n_UseCircuitCode = false -> body_fine m -> mi_consumed m = false ->
     rs_sends (recv decode ss p data src) = match mi_out m with Some b => [(b, r_addr r)] | None => [] end.
   Proof.
-    intros ss p data src payload m i s k r c Hnd Hk Hc Hf Hcl Hp Hd Hs Hn Hu Hb Hcons.
+    intros ss p data src payload m i s k r c Hnd Hk Hc Hf Hcl Hne Hp Hd Hs Hn Hu Hb Hcons.
     pose proof (find_region_unique _ _ k r c Hnd Hk Hc eq_refl) as F.
-    exact (proj1 (proj2 (viewer_to_sim ss p data src (r_addr r) payload m i s k r c Hf Hcl Hp Hd Hs Hn Hu F Hb Hcons))).
+    exact (proj1 (proj2 (viewer_to_sim ss p data src (r_addr r) payload m i s k r c Hf Hcl Hne Hp Hd Hs Hn Hu F Hb Hcons))).
   Qed.
 
   Theorem two_regions_in : forall ss p data v m i s k r c,
@@ -941,7 +979,8 @@ Section Routing.
         rewrite ?(nth_error_upd_hit _ _ _ _ E), ?(nth_error_upd_hit _ _ _ _ Hn); congruence. }
     unfold recv. destruct (f2n_get (p_f2n p) (ip_addr src)); [now apply H|].
     destruct (fst src =? p_client p); [|cbn; auto].
-    destruct (parse_socks data) as [| |far d]; [cbn; auto|cbn; auto|]. now apply H.
+    destruct (parse_socks data) as [| |far d]; [cbn; auto|cbn; auto|].
+    destruct (addr_eqb far (ip_addr src)); [cbn; auto|]. now apply H.
   Qed.
 
   (* a datagram handled by association b - valid or garbage - leaves association a and a's claimed
@@ -984,9 +1023,7 @@ Section Routing.
 End Routing.
 
 (* ====================================================================================== *)
-(* The unrestricted isolation statement is false of the code as it is (finding #20): a toy decoder
-   and a three-datagram history in which a discarded datagram addressed to the viewer's own address
-   silences the next, perfectly valid, viewer datagram. *)
+(* Concrete instances: a toy decoder, one session with two regions, one association. *)
 
 Definition toy_decode (d : list N) : option msginfo :=
   match d with
@@ -1013,7 +1050,24 @@ Proof.
   apply Inv_no_circuits. intros s r [<-|[]] [<-|[<-|[]]]; reflexivity.
 Qed.
 
-Theorem discard_isolated_refuted :
+Definition toy_V2 : ipaddr := (2130706433, 50001).   (* 127.0.0.1:50001, a second local port *)
+
+(* regression on the witness of finding #20 (before /repo dc82116 the last datagram was not forwarded):
+   a datagram addressed to the viewer's own address is now discarded without a trace *)
+Lemma discard_isolated_defect20_regression :
+  let ss := toy_sessions in let p := toy_proto in
+  let h1 := [(wrap toy_S [1], toy_V)] in let h2 := [(wrap toy_S [9], toy_V)] in
+  is_discard (rs_outcome (let '(ss1, p1, _) := run toy_decode ss p h1 in
+                          recv toy_decode ss1 p1 (wrap toy_V [9]) toy_V)) = true /\
+  snd (run toy_decode ss p (h1 ++ (wrap toy_V [9], toy_V) :: h2)) = [[([1], toy_S)]; []; [([9], toy_S)]] /\
+  snd (run toy_decode ss p (h1 ++ h2)) = [[([1], toy_S)]; [([9], toy_S)]] /\
+  p_f2n (snd (fst (run toy_decode ss p (h1 ++ [(wrap toy_V [9], toy_V)])))) = p_f2n (snd (fst (run toy_decode ss p h1))).
+Proof. vm_compute. repeat split. Qed.
+
+(* why a residual hypothesis is still needed: the FULL statement (no [dest_harmless]) is false of the
+   repaired code too - a discarded datagram from port 50000 addressed to the client's own second port
+   50001 makes the proxy take the next, valid, datagram from port 50001 for inbound traffic *)
+Theorem discard_isolated_two_ports_refuted :
   exists decode ss p h1 data src h2,
     Inv ss p /\
     is_discard (rs_outcome (let '(ss1, p1, _) := run decode ss p h1 in recv decode ss1 p1 data src)) = true /\
@@ -1021,6 +1075,6 @@ Theorem discard_isolated_refuted :
     snd (run decode ss p (h1 ++ h2)) = [[([1], toy_S)]; [([9], toy_S)]].
 Proof.
   exists toy_decode, toy_sessions, toy_proto,
-         [(wrap toy_S [1], toy_V)], (wrap toy_V [9]), toy_V, [(wrap toy_S [9], toy_V)].
+         [(wrap toy_S [1], toy_V)], (wrap toy_V2 [9]), toy_V, [(wrap toy_S [9], toy_V2)].
   split; [exact toy_Inv|]. vm_compute. repeat split.
 Qed.
